@@ -269,7 +269,8 @@ def features(kernel, text):
         'string_backslash': kernel in ('string-dq', 'string-sq', 'url-dq', 'url-sq', 'url-bare', 'attr-dq',
                                        'import-str', 'import-url', 'import-name', 'namespace-uri',
                                        'func-arg') and '\\' in hole,
-        'media_empty_expression': kernel == 'media-feature' and not hole.strip(' \t\r\n\f'),
+        'media_empty_expression': kernel == 'media-feature' and (
+            not hole.strip(' \t\r\n\f') or hole.rstrip(' \t\r\n\f').endswith(':')),
         'leading_feff': text.startswith('\ufeff'),
     }
 
